@@ -14,7 +14,7 @@ def ErrClass.str : ErrClass → String
   | .primMismatch => "primMismatch" | .primIncomparable => "primIncomparable" | .unsupported => "unsupported"
   | .uptrMismatch => "uptrMismatch" | .uptrKind => "uptrKind" | .cannotConvert => "cannotConvert"
   | .mapNonMap => "mapNonMap" | .mapType => "mapType" | .mapLen => "mapLen" | .mapKey => "mapKey"
-  | .structType => "structType" | .structNum => "structNum" | .structAnon => "structAnon"
+  | .structType => "structType" | .structNum => "structNum" | .structAnon => "structAnon" | .structVis => "structVis"
   | .seqKind => "seqKind" | .seqCapLen => "seqCapLen"
   | .user n => s!"user{n}"
 
@@ -51,14 +51,6 @@ partial def valHasNaN : Val → Bool
   | .anys xs => xs.any valHasNaN
   | _ => false
 
-/-- `EqSpec.inDomain` without the exclusion of handle-like leaves -/
-partial def inDomainLax : Val → Bool
-  | .nil => true
-  | .leaf l => EqSpec.domEV .top l.toEV
-  | .stk _ c xs => c.eqf.isNone && [Gen.kind_and, Gen.kind_or, Gen.kind_not, Gen.kind_list, Gen.kind_basic].contains c.kind && xs.all inDomainLax
-  | .cnd _ c _ _ ex => c.eqf.isNone && c.kind == Gen.kind_cond && inDomainLax ex
-  | _ => false
-
 def specVerdict (same : Bool) : String := if same then "eq" else "ne"
 
 /-- payload `<A> | <B> | <tag>`; `unit`: compare with `valuesEqual` instead of the exported `IsEqual` -/
@@ -72,10 +64,7 @@ def runEq (unit : Bool) (payload : String) : String × String × String :=
     let mab := if unit then Val.veq interpEq a b else Val.IsEqual interpEq self a b
     let mba := if unit then Val.veq interpEq b a else Val.IsEqual interpEq self b a
     let m := s!"ab={showEq mab} ba={showEq mba}"
-    let strict := EqSpec.inDomain a && EqSpec.inDomain b && !self
-    -- a leaf that looks like a handle is kept under the specification here (known finding K-C05-2)
-    let look := !strict && !self && inDomainLax a && inDomainLax b
-    let dom := strict || look
+    let dom := EqSpec.inDomain a && EqSpec.inDomain b && !self
     let sab := EqSpec.sameDesc a b
     let sba := EqSpec.sameDesc b a
     -- inside the domain the specification decides; outside it only demands "no panic" and the line
@@ -86,7 +75,7 @@ def runEq (unit : Bool) (payload : String) : String × String × String :=
     let s := if dom then s!"ab={specVerdict sab} ba={specVerdict sba}"
              else s!"ab={noPanic mab} ba={noPanic mba}"
     let sane := if dom && tag == "copy" && !(sab && sba) then " GEN-SPEC-MISMATCH" else ""
-    let k := s!"{if dom then "dom" else "ood"} {tag}{if valHasNaN a || valHasNaN b then " nan" else ""}{if risky then " C05.MixedEmbedded" else ""}{if look then " C05.HandleLike" else ""}{sane}"
+    let k := s!"{if dom then "dom" else "ood"} {tag}{if valHasNaN a || valHasNaN b then " nan" else ""}{if risky then " modelpanic" else ""}{sane}"
     (m, s, k)
   | _ => ("BADCASE", "BADCASE", "")
 
